@@ -185,3 +185,14 @@ none is listed as a finding and no check was loosened below what its statement s
   mode (C01 run-away loop, C07 server panic, C12 out-of-memory on a hostile cookie, panics inside a handler -> status 599); every other
   death, TLC time-out or out-of-memory is exit 2.
 """
+
+SEC7B = """**As built (how it grew).** The shared `Storage` sub-module of the plan was not built as a module of its own: the limiter, cache, CSRF, session and
+idempotency specifications each carry their store with deadlines, and `MemoryStore.tla` (added late) specifies the in-process store they all fall back to.
+Modules that were not in the plan and exist: `Wire.tla` (C07), `Binding.tla` (C11), `ClientBody.tla` and `ClientKV.tla` (C18), `MemoryStore.tla` (C13/C14).
+Growth after every property had a check came almost entirely from the seeded changes (section 9): each batch of fresh changes that slipped through named a
+dimension the specification had left out, and adding it to the *specification* repeatedly turned up defects of the code nobody had been looking for --
+`6bd4617` (route merging, from three registrations), `f811e1d` and `f401b3b` (mounts, from nested root mounts and from `Serve`), `ce6213b` (cache headers),
+`ccc461a`/`0c1bc9d` (cookie jar, from IPv6 hosts), `6d15e73` (client setters, from `ClientKV.tla`), `b7b6f7a` (escaped star, from the escape twin), `fb5d6ec`
+(session reset, from `ByIDSave`). Of the follow-up list above, `Redirect().Route` (C12 `via`), `GetRouteURL` (C06 churn), `Fresh` (C07) are touched;
+`RestartRouting`, hooks ordering, `State`, timeout / recover middleware, keyauth / basicauth and the retry add-on are still not specified.
+"""
